@@ -258,7 +258,33 @@ def run(tier, seed, rng):
         if got != want or o.get('end') != end:
             failures.append(dict(kind='oracle', sig='recursive-sequence', what=f"a repeated field whose elements are packets of its own class: the tree must parse as {want} and end at {end}; observed {got}, end {o.get('end')}",
                                  classes=tsrc, cls=cls, raw=raw.hex(), offset=0, observed=o))
-    out = dict(seq=0, counted=0, until=0, when_false=0, opt=0, selected=0, ref=0, unevaluable=0, parsed=0, positions=0, positions_not_covered=0, bad=[], fresh_selector_cases=len(fcases), recursive_tree_cases=len(tcases))
+    # ---- counts / conditions / selectors given as EXPRESSIONS, evaluated for a packet on which an operator raises (division by zero,
+    # index out of range, unknown key), then again for well-formed packets of the same class in the same process
+    xsrc = ("class XChunk(Packet):\n    total = Int(1)\n    size = Int(1)\n    items = Int(1).repeated(count=total // size)\n    t = Data(1)\n"
+            "class XFlag(Packet):\n    n = Int(1)\n    vals = Int(1).repeated(count=n)\n    opt = Int(1).when(vals[0] == 255)\n    t = Int(1)\n"
+            "class XSel(Packet):\n    kind = Int(1)\n    body = Ref(kind.chooses({1: Int(1), 2: Int(2)}), default=0)\n    t = Int(1)\n")
+    xcases = [('XChunk', bytes([4, 2, 65, 66, 67]), {'total': 4, 'size': 2, 'items': [65, 66], 't': {'x': '43'}}),
+              ('XChunk', bytes([4, 0, 65, 66, 67]), None),
+              ('XChunk', bytes([4, 2, 65, 66, 67]), {'total': 4, 'size': 2, 'items': [65, 66], 't': {'x': '43'}}),
+              ('XChunk', bytes([3, 1, 65, 66, 67, 68]), {'total': 3, 'size': 1, 'items': [65, 66, 67], 't': {'x': '44'}}),
+              ('XChunk', bytes([9, 0, 1]), None),
+              ('XChunk', bytes([2, 2, 65, 66]), {'total': 2, 'size': 2, 'items': [65], 't': {'x': '42'}}),
+              ('XFlag', bytes([1, 255, 7, 9]), {'n': 1, 'vals': [255], 'opt': 7, 't': 9}),
+              ('XFlag', bytes([0, 7, 9]), None),
+              ('XFlag', bytes([1, 255, 7, 9]), {'n': 1, 'vals': [255], 'opt': 7, 't': 9}),
+              ('XFlag', bytes([2, 1, 2, 9]), {'n': 2, 'vals': [1, 2], 'opt': None, 't': 9}),
+              ('XSel', bytes([1, 5, 9]), {'kind': 1, 'body': 5, 't': 9}),
+              ('XSel', bytes([3, 5, 9]), None),
+              ('XSel', bytes([2, 1, 2, 9]), {'kind': 2, 'body': 258, 't': 9}),
+              ('XSel', bytes([1, 5, 9]), {'kind': 1, 'body': 5, 't': 9})]
+    xres = run_impl(os.path.join(VERIF, 'harness', 'impl_pkt.py'), dict(header=decl.HEADER_PY, blocks=[dict(name='xraise', src=xsrc)], modname='c08x',
+                                                                       cases=[dict(cls=c, op='roundtrip', raw=r.hex(), offset=0) for c, r, _ in xcases]))
+    for k, ((cls, raw, want), o) in enumerate(zip(xcases, xres['outcomes'])):
+        got = dict(o['ok']['f']) if 'ok' in o else None
+        if (want is None and o.get('err') != 'unpacking') or (want is not None and got != want):
+            failures.append(dict(kind='oracle', sig='after-a-raising-expression', what=f"inputs parsed one after the other in one process; input {k} ({cls} {raw.hex()}) must give {want if want is not None else 'a PacketError'}; observed {str(o)[:200]}",
+                                 classes=xsrc, cls=cls, raw=raw.hex(), offset=0, sequence=[[c, r.hex()] for c, r, _ in xcases[:k + 1]], observed=o))
+    out = dict(seq=0, counted=0, until=0, when_false=0, opt=0, selected=0, ref=0, unevaluable=0, parsed=0, positions=0, positions_not_covered=0, bad=[], fresh_selector_cases=len(fcases), recursive_tree_cases=len(tcases), after_raising_expression=len(xcases))
     for r in records:
         if r['kind'] != 'roundtrip' or 'ok' not in r['outcome']:
             continue
